@@ -1,6 +1,6 @@
 (* C06 — Aliases interchangeable, Called/CalledAs exact, untouched options keep defaults. *)
 From GO Require Import Base.Str Model.Tokenizer Model.Option Model.Tree Model.Parse.
-From GO Require Import Proofs.TokLemmas Proofs.ParseLemmas Proofs.Match Proofs.Alias.
+From GO Require Import Proofs.TokLemmas Proofs.ParseLemmas Proofs.Match Proofs.Alias Proofs.SaveFrame.
 
 (* Two keys (name / alias) of the same option: processing a pair under one or the other gives the
    same value, Called, intake counters and the same states for every other option; only CalledAs
@@ -70,3 +70,12 @@ Theorem C06_called_kept_by_value :
     save_to pf lower specs st oid a = Ok st' -> called_at st o = true -> called_at st' o = true.
 Proof. exact save_to_called. Qed.
 Print Assumptions C06_called_kept_by_value.
+
+(* Storing a value - what SetValue does, and what the parser and GetEnv do after their own bookkeeping -
+   changes the value only: Called and CalledAs stay as they were.  (The harness checks the real
+   SetValue against exactly this after every third parse case.) *)
+Theorem C06_storing_keeps_called :
+  forall pf lower sp st a st',
+    save pf lower sp st a = Ok st' -> o_called st' = o_called st /\ o_used st' = o_used st.
+Proof. exact save_keeps_called. Qed.
+Print Assumptions C06_storing_keeps_called.
